@@ -55,11 +55,20 @@ package sender
 //@ elem Instantiate assume elem != nil
 //@ site loop 1 backedge assert has_key(targets, target.Name) && targets[target.Name] != nil && targets[target.Name].Type == target.Type && targets[target.Name].Data == target.Data
 
-// Plugin construction opens listeners and clients: outside the verified subset, assumed.
+// Plugin construction (C19: a receiver of type http / poll is handed to the transport of that type, so each
+// transport exists exactly when it is enabled, and is built from its own configuration). The constructors open
+// listeners and clients and are abstracted here (poll.New and http.New are units of their own).
 //@ func (*PluginConfig).Instantiate
-//@ assumed
+//@ props C19 C18
 //@ opaque
+//@ abstract-calls force ^New$
+//@ count-appends
+//@ requires c != nil
 //@ ensures result1 == nil ==> result0 != nil
+//@ site call http.New assert c.Http.Enabled
+//@ site call poll.New assert c.Poll.Enabled
+//@ site return assert result1 == nil ==> (c.Http.Enabled && c.Poll.Enabled ==> calls("New") == 2) && (c.Http.Enabled != c.Poll.Enabled ==> calls("New") == 1) && (!c.Http.Enabled && !c.Poll.Enabled ==> calls("New") == 0)
+//@ site return assert result1 == nil ==> calls("append") == calls("New") && len(result0) == calls("New")
 
 // The worker loop (C12: every submission taken from the queue is processed exactly once and its completion
 // is handed back exactly once; the loop ends only when the queue is closed). Callees are abstracted: they
